@@ -255,8 +255,11 @@ func (tw *TumblingWindow) Add(data any) {
 			// triggered yet; the row triggers normally, keep it.
 		case tw.config.AllowedLateness > 0:
 			placed := false
+			// a fired window is open for late rows until the watermark reaches its end + allowance;
+			// whether the trigger goroutine has already removed it is a matter of timing
+			wmNow := tw.watermark.GetCurrentWatermark()
 			for _, info := range tw.triggeredWindows {
-				if info.slot.Contains(eventTime) {
+				if info.slot.Contains(eventTime) && wmNow.Before(info.closeTime) {
 					tw.handleLateData(eventTime, tw.config.AllowedLateness)
 					placed = true
 					break
